@@ -141,8 +141,8 @@ pub fn plan(tier: &str) -> Plan {
     let cfg = ExecCfg::default();
     let mut units = Vec::new();
     for sc in scenarios(thorough) {
-        let bound = if thorough { 3 } else { 2 };
-        units.push(Unit::explore_split(Job::new(format!("c03/{}", sc.name()), cfg.clone(), Some(bound), body(sc, oracle)), if thorough { 4 } else { 1 }));
+        let bound = if thorough { 4 } else { 3 };
+        units.push(Unit::explore_split(Job::new(format!("c03/{}", sc.name()), cfg.clone(), Some(bound), body(sc, oracle)), if thorough { 8 } else { 4 }));
     }
     Plan {
         property: "C03",
